@@ -55,7 +55,7 @@ def run(ctx):
     _rebuild_interpreted(ctx, r9, repo)
     r11 = ctx.rule("C12.R11", "ACCESSORS (interpreted): _ModelConfig.__init__ + set_parameters with real parameter-set objects registered in a NON-alphabetical order (a scalar free set, a 2-component Gaussian set with mixed fixed flags, a 3-component Poisson set, a scalar fixed set), then every accessor: par_order, par_slice / param_set per name, npars, suggested_init / bounds / fixed (the concatenation of each set's own values in parameter order), par_names (name, or name[i] from 0), and set_poi -> poi_index = the first component of the named set; a multi-component or undeclared POI is refused", "ACCESSORS", floor=8)
     _config_accessors(ctx, r11, repo)
-    r10 = ctx.rule("C12.R10", "SETTINGS-HISTORY: a parameter set's suggested fixed flags read after they were assigned (the documented way of changing a model's defaults: a bool, a list, a bool again, in any order, with reads in between) are what was assigned last, one entry per component", "HISTORY", floor=3)
+    r10 = ctx.rule("C12.R10", "SETTINGS-HISTORY: a parameter set's suggested fixed flags read after they were assigned (the documented way of changing a model's defaults: a bool, a list, a bool again, in any order, with reads in between) are what was assigned last, one entry per component; inits, bounds, auxdata, sigmas / factors given to the constructor are reported verbatim whatever the fixed flags", "HISTORY", floor=6)
     _paramset_history(ctx, r10, repo)
 
     # ------------------------------------------------------------ R1
@@ -586,6 +586,27 @@ def _paramset_history(ctx, rid, repo):
                 w.add_class(c_)
             inst = w.new(cls, [], {"name": "p", "n_parameters": Poly.const(3), "inits": [at("i0"), at("i1"), at("i2")], "bounds": [(at("l"), at("h"))] * 3, "fixed": False, "is_scalar": False, **extra})
 
+            # what the constructor is given is what the set reports, whatever the fixed flags are
+            for fixed_given in (False, True, [True, False, True]):
+                more = dict(extra)
+                if cname == "constrained_by_normal":
+                    more["sigmas"] = [at("sg0"), at("sg1"), at("sg2")]
+                probe = w.new(cls, [], {"name": "p", "n_parameters": Poly.const(3), "inits": [at("i0"), at("i1"), at("i2")], "bounds": [(at("l0"), at("h0")), (at("l1"), at("h1")), (at("l2"), at("h2"))], "fixed": fixed_given if isinstance(fixed_given, bool) else list(fixed_given), "is_scalar": False, **more})
+                want_attrs = {"suggested_init": ["i0", "i1", "i2"], "suggested_bounds": [["l0", "h0"], ["l1", "h1"], ["l2", "h2"]]}
+                for k_, v_ in more.items():
+                    want_attrs[k_] = [str(to_poly(x)) for x in v_]
+                for k_, wv in want_attrs.items():
+                    gv = probe.attrs.get(k_)
+                    gs = [[str(to_poly(y)) for y in x] if isinstance(x, (list, tuple)) else str(to_poly(x)) for x in gv] if isinstance(gv, (list, tuple)) else gv
+                    if gs != wv:
+                        ctx.violated(rid, cls.methods.get("__init__") or cls, f"{cname}(fixed={fixed_given}).{k_}", f"a {cname} parameter set constructed with {k_} = {wv} and fixed = {fixed_given} reports {gs}: the setting does not arrive verbatim (here it depends on the fixed flags), so the constraint term is built with another value than the measurement configured", expected=str(wv), found=str(gs))
+                        break
+                else:
+                    continue
+                break
+            else:
+                ctx.holds(rid, f"{PS}::{cname}(...) [fixed False / True / mixed]", "inits, bounds and constraint settings reported as given")
+
             def read():
                 v = w.get_property(inst, "suggested_fixed")
                 return list(v) if isinstance(v, (list, tuple)) else v
@@ -626,7 +647,7 @@ def _config_accessors(ctx, rid, repo):
     at = Poly.atom
     errs = (Undecided, KeyError, TypeError, ValueError, IndexError, AttributeError)
     try:
-        w = World({"__strict__": True}, module_env={"log": Obj("log"), "exceptions": Obj("exceptions"), "pyhf": Obj("pyhf")})
+        w = World({"__strict__": True}, module_env={"log": Obj("log"), "exceptions": Obj("exceptions"), "pyhf": Obj("pyhf"), "functools": Obj("functools"), "operator": Obj("operator")})
         w.add_class(mix).add_class(mc)
         for c_ in psm.classes.values():
             w.add_class(c_)
@@ -685,6 +706,32 @@ def _config_accessors(ctx, rid, repo):
         judge("suggested_bounds()", s_(call("suggested_bounds")), [[f"{n_}_l{j}", f"{n_}_h{j}"] for n_ in order for j in range(sizes[n_])], "suggested_bounds")
         judge("suggested_fixed()", s_(call("suggested_fixed")), [False, False, True, True, False, False, False], "suggested_fixed")
         judge("par_names", list(w.get_property(cfg, "par_names")), ["zeta", "beta[0]", "beta[1]", "mu", "alpha[0]", "alpha[1]", "alpha[2]"], "par_names")
+        # what the accessors hand out is the caller's to edit (fixed = suggested_fixed(); fixed[poi] = True; fit(..., fixed_params=fixed))
+        for acc, first_value in (("suggested_fixed", True), ("suggested_init", at("EDITED")), ("suggested_bounds", (at("EL"), at("EH")))):
+            before = s_(call(acc))
+            handed = call(acc)
+            if isinstance(handed, list) and handed:
+                handed[0] = first_value
+                handed.append(first_value)
+            judge(f"{acc}() after the list returned by an earlier call was edited", s_(call(acc)), before, acc)
+        # ... also for a model with ONE parameter set (nothing to concatenate)
+        w1 = World({"__strict__": True}, module_env={"log": Obj("log"), "exceptions": Obj("exceptions"), "pyhf": Obj("pyhf"), "functools": Obj("functools"), "operator": Obj("operator")})
+        w1.add_class(mix).add_class(mc)
+        for c_ in psm.classes.values():
+            w1.add_class(c_)
+        only = w1.new(psm.classes["unconstrained"], [], {"name": "mu", "n_parameters": Poly.const(1), "inits": [at("mu_i")], "bounds": [(at("mu_l"), at("mu_h"))], "fixed": False, "is_scalar": True})
+        cfg1 = Instance(mc)
+        w1.call_method(cfg1, "__init__", [{"channels": [{"name": "c", "samples": [{"name": "s", "data": [at("d0")], "modifiers": [{"name": "mu", "type": "normfactor", "data": None}]}]}]}], {})
+        w1.call_method(cfg1, "set_parameters", [{"mu": only}])
+        for acc, first_value, want1 in (("suggested_fixed", True, [False]), ("suggested_init", at("EDITED"), ["mu_i"]), ("suggested_bounds", (at("EL"), at("EH")), [["mu_l", "mu_h"]])):
+            handed = w1.call_method(cfg1, acc, [])
+            if isinstance(handed, list) and handed:
+                handed[0] = first_value
+            got1 = s_(w1.call_method(cfg1, acc, []))
+            if got1 == want1:
+                ctx.holds(rid, f"{PDF}::_ModelConfig.{acc}() [one parameter set; the list handed out earlier was edited]", str(want1))
+            else:
+                ctx.violated(rid, mc.methods.get(acc) or mc, f"_ModelConfig.{acc}() of a one-parameter-set model", f"editing the list `{acc}()` returned (the documented way to build fixed_params / init_pars for a fit) changes the MODEL: the accessor hands out the parameter set's own list, so e.g. a POI fixed for one fit stays fixed and every later hypothesis test on the model is refused", expected=str(want1), found=str(got1))
         call("set_poi", "mu")
         judge("set_poi('mu') -> poi_name, poi_index", (w.get_property(cfg, "poi_name"), int(to_poly(w.get_property(cfg, "poi_index")).const_value())), ("mu", starts["mu"]), "set_poi")
         for bad, why in (("alpha", "a parameter set with several components"), ("nope", "a name the model does not declare")):
